@@ -510,6 +510,22 @@ C15_FAMILIES = ["nest", "nest-noname", "nest-multi", "set-width", "coll-set", "a
 C15_RATIO_LIMIT = 2.6
 
 
+def c15_growth(series, floor):
+    """Growth of the last doubling: 2 x (marginal cost per input byte of the last step) / (the steepest marginal cost of any
+    earlier step whose increment exceeds `floor`). For a cost whose marginal cost never falls this is the plain ratio of successive
+    increments (linear 2, quadratic 4); a step that got *cheaper* (another buffering regime for larger values) does not make the
+    next, ordinary one look super-linear."""
+    m = []
+    for i in range(1, len(series)):
+        dn = series[i][0] - series[i - 1][0]
+        dc = series[i][1] - series[i - 1][1]
+        m.append((dc / dn if dn > 0 else 0.0, dc))
+    prev = [x for x, dc in m[:-1] if dc > floor]
+    if not prev or max(prev) <= 0 or series[-1][0] - series[-2][0] < 0.25 * series[-2][0]:
+        return None  # nothing to compare with, or the family's generator did not actually grow the input
+    return 2.0 * m[-1][0] / max(prev)
+
+
 def c15_irefs(ctx, fam, size, use_async, chunk=0):
     import re
     cmd = ["valgrind", "--tool=cachegrind", "--cache-sim=no", "--cachegrind-out-file=/dev/null",
@@ -534,7 +550,8 @@ def c15_series(ctx, job):
     key = f"{fam}/{'async' if use_async else 'blocking'}" + (f"/reads-of-{chunk}" if chunk else "")
     series, viol, inconcl = [], [], []
     size = 4096
-    while size <= max_size:
+    suspect = False  # one doubling above the limit: confirmed or cleared by the next one (taken even beyond max_size)
+    while size <= max_size or (suspect and size <= 2 * max_size):
         irefs, n, err = c15_irefs(ctx, fam, size, use_async, chunk)
         if err == "timeout":
             # >100x backstop: a linear parse of <= 1 MiB under cachegrind takes seconds, not half an hour
@@ -547,14 +564,15 @@ def c15_series(ctx, job):
             break
         series.append((n, irefs))
         if len(series) >= 3:
-            d1 = series[-2][1] - series[-3][1]
-            d2 = series[-1][1] - series[-2][1]
-            if d1 > 200_000:
-                ratio = d2 / d1
-                if ratio > C15_RATIO_LIMIT:
+            ratio = c15_growth(series, 200_000)
+            was_suspect, suspect = suspect, False
+            if ratio is not None:
+                if ratio > C15_RATIO_LIMIT and not was_suspect:
+                    suspect = True
+                elif ratio > C15_RATIO_LIMIT:
                     viol.append({
                         "signature": f"C15:superlinear-instructions:{fam}",
-                        "detail": f"{key}: instructions grow by x{ratio:.2f} per doubling at {n} input bytes (series (input bytes, I refs): {series}); linear is 2, quadratic 4, limit {C15_RATIO_LIMIT}",
+                        "detail": f"{key}: instructions grow by x{ratio:.2f} per doubling (against the steepest earlier doubling, second doubling in a row above the limit) at {n} input bytes (series (input bytes, I refs): {series}); linear is 2, quadratic 4, limit {C15_RATIO_LIMIT}",
                         "replay": ["cost", "--family", fam, "--size", str(size)] + (["--async"] if use_async else []) + (["--chunk", str(chunk)] if chunk else []),
                         "binary": "vcore"})
                     break  # stop the series at the first violating doubling
@@ -584,11 +602,10 @@ def c15_cachegrind(ctx):
         r["violations"] += viol
         r["violations_total"] += len(viol)
         r["inconclusive"] += inconcl
-        for i in range(2, len(series)):
-            d1 = series[i - 1][1] - series[i - 2][1]
-            d2 = series[i][1] - series[i - 1][1]
-            if d1 > 200_000:
-                worst = max(worst, d2 / d1)
+        for i in range(3, len(series) + 1):
+            g = c15_growth(series[:i], 200_000)
+            if g is not None:
+                worst = max(worst, g)
     r["coverage"]["instruction_series"] = allseries
     r["coverage"]["hash_flood_family"] = flood_note
     r["coverage"]["counters"]["max_instruction_ratio_x1000"] = int(worst * 1000)
